@@ -1,8 +1,10 @@
 ---------------------------- MODULE ConsoleJudge ----------------------------
 (* The oracle of C20 evaluated on what the real console returned.           *)
 (*                                                                         *)
-(* judge.ndjson holds one line per replayed scenario whose real output was  *)
-(* not literally the machine's output: {id, keys, obs}.  TLC applies the    *)
+(* judge.ndjson holds one line per execution to be judged: {id, keys, obs} - *)
+(* bounded scenarios whose real output was not literally the machine's      *)
+(* output, and every long random input (keys and obs are byte values, so     *)
+(* multi-byte characters must come back byte for byte).  TLC applies the    *)
 (* reference meaning of Console.tla (Accept, LiteralsIntact) to it, so the  *)
 (* decision "same statements up to whitespace between tokens" is taken by   *)
 (* the specification and nowhere else.                                      *)
@@ -11,8 +13,18 @@ EXTENDS Console, Json
 VARIABLE l
 Lines == ndJsonDeserialize("judge.ndjson")
 
+\* the input obeys the environment assumption of C20: line breaks outside literals only,
+\* every statement terminated, the last key is Enter
+WellFormed(k) == LET qs == QStates(k)  ts == TermSeq(k)
+                     last == IF ts = <<>> THEN 0 ELSE ts[Len(ts)]
+                 IN  /\ k # <<>> /\ k[Len(k)] = CR
+                     /\ \A i \in 1..Len(k) : k[i] = CR => (i = 1 \/ qs[i - 1] = 0)
+                     /\ \A i \in (last + 1)..Len(k) : IsWS(k[i])
+
 Verdict(r) == LET want == StmtsOf(r.keys) IN
               [id |-> r.id,
+               wellformed |-> WellFormed(r.keys),
+               stmts |-> Len(want),
                accept |-> Accept(want, r.obs),
                literals |-> LiteralsIntact(want, r.obs),
                count |-> Len(r.obs) = Len(want)]
